@@ -242,11 +242,12 @@ class GMRES:
                 self.arnoldi(k)
                 self.apply_givens_rotation(k)
                 self.e1[k + 1] = -self.sine[k] * self.e1[k]
-                self.e1[k] = self.cosine[k] * self.e1[k]
+                self.e1[k] = np.conj(self.cosine[k]) * self.e1[k]
                 # The residual is just the last element of $\beta$ vector (see Wikipedia) since $y$ is found exactly.
                 error = np.abs(self.e1[k + 1]) / self.b_norm
                 self.total_error[-1].append(error)
-                if error < self.res and k >= self.N_min:
+                if (error < self.res and k >= self.N_min) or self._breakdown:
+                    # (exact breakdown: the Krylov space is invariant and the iterate solves the system)
                     converged = True
                     break
             self.total_iters.append(k + 1)
@@ -255,6 +256,8 @@ class GMRES:
                 self.x.iadd_prefactor_other(self.y[i], self.qs[i])
             if not converged:
                 self.reset()
+                if self.total_error[-1][0] < self.res:  # the residual after the restart is already small enough
+                    break
             else:
                 break
 
@@ -263,29 +266,32 @@ class GMRES:
     def arnoldi(self, k):
         # Iterative build orthogonal Krylov subspace and $H$ matrix.
         q = self.A.matvec(self.qs[-1])
+        norm_Aq = npc.norm(q)
         for i in range(k + 1):
-            self.H[i, k] = npc.inner(q, self.qs[i], axes='range', do_conj=True)
+            self.H[i, k] = npc.inner(self.qs[i], q, axes='range', do_conj=True)
             q.iadd_prefactor_other(-self.H[i, k], self.qs[i])
         self.H[k + 1, k] = npc.norm(q)
-        if self.H[k + 1, k] > 0:  # avoid warning if norm(q)==0, error=0 in that case
+        # breakdown: nothing but rounding noise is left after orthogonalization, the Krylov space is invariant
+        self._breakdown = not (np.real(self.H[k + 1, k]) > 1.0e-14 * norm_Aq)
+        if not self._breakdown:  # avoid warning if norm(q)==0, error=0 in that case
             q.iscale_prefactor(1.0 / self.H[k + 1, k])
         self.qs.append(q)
 
     def apply_givens_rotation(self, k):
         # Apply rotation to $H$ so that it becomes upper triangular.
         for i in range(k):
-            temp = self.cosine[i] * self.H[i, k] + self.sine[i] * self.H[i + 1, k]
+            temp = np.conj(self.cosine[i]) * self.H[i, k] + np.conj(self.sine[i]) * self.H[i + 1, k]
             self.H[i + 1, k] = -self.sine[i] * self.H[i, k] + self.cosine[i] * self.H[i + 1, k]
             self.H[i, k] = temp
 
         self.givens_rotation(k)
-        self.H[k, k] = self.cosine[k] * self.H[k, k] + self.sine[k] * self.H[k + 1, k]
+        self.H[k, k] = np.conj(self.cosine[k]) * self.H[k, k] + np.conj(self.sine[k]) * self.H[k + 1, k]
         self.H[k + 1, k] = 0
 
     def givens_rotation(self, k):
         # Find cosine and sine such that the element below the diagonal of kth column of $H$ is removed.
         v1, v2 = self.H[k, k], self.H[k + 1, k]
-        t = np.sqrt(v1**2 + v2**2)
+        t = np.sqrt(np.abs(v1) ** 2 + np.abs(v2) ** 2)
         self.cosine[k] = v1 / t
         self.sine[k] = v2 / t
 
@@ -308,7 +314,8 @@ class GMRES:
         self.total_error.append([npc.norm(self.rs[-1]) / self.b_norm])
         self.r_norm = npc.norm(self.rs[-1])
         self.qs = [self.rs[-1].copy()]
-        self.qs[-1].iscale_prefactor(1.0 / self.r_norm)
+        if self.r_norm > 0:
+            self.qs[-1].iscale_prefactor(1.0 / self.r_norm)
 
         self.sine = np.zeros(self.N_max) * 1.0j
         self.cosine = np.zeros(self.N_max) * 1.0j
